@@ -1114,7 +1114,14 @@ fn handle_crash<P: Property>(
             }
         }
         Isolated::Verdict(Verdict::Fail { sig, detail }) => {
-            if let Some(pat) = tolerated.iter().find(|pat| sig_matches(pat, &sig)) {
+            // the isolated re-run judges with every feature on (no domain exclusions): any active
+            // known finding of this property may show up here
+            let any_known: Vec<String> = load_known()
+                .into_iter()
+                .filter(|k| k.status == "known" && k.properties.iter().any(|q| q == id))
+                .flat_map(|k| k.signatures)
+                .collect();
+            if let Some(pat) = tolerated.iter().chain(any_known.iter()).find(|pat| sig_matches(pat, &sig)) {
                 *agg.excluded_known.entry(pat.clone()).or_insert(0) += 1;
             } else {
                 let case: Value = std::fs::read(&saved)
